@@ -244,7 +244,13 @@ func c03Decode(c *cx) {
 		okFlag := false
 		if len(rs.Results) == 3 {
 			pt, _ := g.Where(rs)
-			okFlag = eng.Glob("eq(*.Name.Local,\"success\")", g.Formula(rs.Results[1], true, pt).String()) && rootIdent(ast.Unparen(rs.Results[1]).(*ast.BinaryExpr).X) != nil && f.Info().Uses[rootIdent(ast.Unparen(rs.Results[1]).(*ast.BinaryExpr).X)] == f.Sig().Params().At(1)
+			if be, isB := ast.Unparen(rs.Results[1]).(*ast.BinaryExpr); isB && eng.Glob("eq(*.Name.Local,\"success\")", g.Formula(rs.Results[1], true, pt).String()) {
+				for _, side := range []ast.Expr{be.X, be.Y} {
+					if ri := rootIdent(side); ri != nil && f.Info().Uses[ri] == f.Sig().Params().At(1) {
+						okFlag = true
+					}
+				}
+			}
 		}
 		c.r.Check("C03.7", f, "nil-error return [success flag]", "K: the success flag is exactly (element name == \"success\")", rs.Pos(), okFlag, "second result is not start.Name.Local == \"success\"")
 	}
